@@ -89,17 +89,15 @@ def first_match(lkeys, rkeys):
     """
     nl = len(lkeys[0]) if lkeys else 0
     nr = len(rkeys[0]) if rkeys else 0
+    first = {}                                  # key identity -> lowest right row (rows with a missing key cell never match)
+    for j in range(nr):
+        rj = [c[j] for c in rkeys]
+        if all(y is not None for y in rj):
+            first.setdefault(tuple(ident(y) for y in rj), j)
     out = []
     for i in range(nl):
         li = [c[i] for c in lkeys]
-        m = None
-        if all(x is not None for x in li):
-            for j in range(nr):
-                rj = [c[j] for c in rkeys]
-                if all(y is not None for y in rj) and all(ident(x) == ident(y) for x, y in zip(li, rj)):
-                    m = j
-                    break
-        out.append(m)
+        out.append(first.get(tuple(ident(x) for x in li)) if all(x is not None for x in li) else None)
     return out
 
 
